@@ -23,6 +23,26 @@ CLAIMED = {
         "DESIGN.md §7 C16"),
 }
 
+SCHED_NOTE = ("Trusted: Coq kernel; extraction (ExtrOcamlBasic) + OCaml driver; the linearisation builder (untrusted for soundness: it can only cause "
+              "rejections); Go runtime channel/select semantics, context as a monotone flag, atomic check-then-run, slot view of worker respawn are "
+              "modelled, not verified; hooks assumed to change timing only. The tie to the code is sampled (seeded executions), the theorems are not.")
+SCHED_TECH = "Coq proof by invariant induction over all runs of an executable LTS model of scheduler.go + trace conformance of the real scheduler (hook events replayed through the extracted step function)"
+CLAIMED["C03"] = (SCHED_TECH,
+    "C03_bound (<= N running, <= N+1 goroutines in every reachable state, any number of jobs), C03_pool_intact (no worker slot lost before the loop "
+    "finished, also after Goexit), C03_capacity (with a ready job and an idle worker the loop acts without waiting for user code), C03_default, for all DAGs, N, "
+    "modes and interleavings. Tie: every observed execution of the real scheduler must replay through the model; direct in-flight counter and live-worker "
+    "counts on each execution.", SCHED_NOTE + " That generated Slice/Map code creates jobs not goroutines is checked on generated code (C10), not here.", "DESIGN.md §7 C03")
+CLAIMED["C09"] = (SCHED_TECH,
+    "C09_no_start_after_cancel (no job start after the cancellation of its context in any history, both modes) and C09_prompt (the ctx return of Wait is "
+    "enabled whatever loop and workers are doing) for all programs and cancellation instants. Tie: trace conformance with pre-cancelled, in-job, external "
+    "cancellations, deadline-style and cancel-style context errors, and a straggler job that keeps running until Wait has returned (watchdog).",
+    SCHED_NOTE, "DESIGN.md §7 C09")
+CLAIMED["C19"] = (SCHED_TECH,
+    "C19_reports (every State ever emitted satisfies Pending = Ready + Waiting + executing, 0 <= executing <= Concurrency, IdleWorkers = Concurrency - "
+    "executing, Concurrency = limit) and C19_stop (no report after the loop finished) for every run of the gated model; C19_refuted_ungated keeps the repaired "
+    "defect as a witness. Tie: every State emitted by the real scheduler (flush down to 1ns) must equal the model's counters at that point of the replay.",
+    SCHED_NOTE + " Partial: Waiting >= 0, Pending <= submitted and Waiting <= submitted-with-dependencies are checked on every observed report by the direct oracle but not yet proved of the model.", "DESIGN.md §7 C19")
+
 ALL = ["C%02d" % i for i in range(1, 21)]
 
 NOT_YET = "check not built yet in this snapshot of /verif (work in progress per DESIGN.md §10); nothing is claimed for it at this commit"
